@@ -247,6 +247,11 @@ Definition minter_send (s : state) (to denom : bytes) (a : Z) (tag : bytes) : re
 Definition tag_commission : bytes := [35;99;111;109;109;105;115;115;105;111;110]%N.   (* "#commission" *)
 Definition tag_fee : bytes := [35;102;101;101]%N.                                       (* "#fee" *)
 
+(* shares *)
+Definition commission_share (total power total_power : Z) : Z := (total * power) / total_power.
+Definition refund_share (fee_left c good : Z) : Z := (fee_left * c) / good.
+Definition reimb_fee (amount total_fee : Z) : Z := if total_fee <=? amount then total_fee else amount.
+
 Definition pay_commissions (s : state) (denom : bytes) (total : Z) : res state :=
   if total <=? 0 then Ok s
   else
@@ -259,7 +264,7 @@ Definition pay_commissions (s : state) (denom : bytes) (total : Z) : res state :
                  if total_power =? 0 then Panic 6      (* division by zero *)
                  else if negb (fits256 (total * power)) then Panic 16
                  else
-                   let a := (total * power) / total_power in
+                   let a := commission_share total power total_power in
                    if a <=? 0 then Ok st else minter_send st addr denom a tag_commission)
               signers (Ok s1).
 
@@ -276,7 +281,7 @@ Definition fee_refunds (s : state) (b : batch) (ti : token_info) (fee_left avg :
                  let c := conv e in
                  if c <? avg then Ok st
                  else
-                   let to_refund := (fee_left * c) / good in
+                   let to_refund := refund_share fee_left c good in
                    if negb (beqb (s_refund_chain e) b_minter) then Ok st
                    else if to_refund <=? 0 then Ok st
                    else
@@ -302,7 +307,7 @@ Definition pay_fees (s : state) (b : batch) (ti : token_info) (total_fee fee_pai
             if pt =? 0 then Panic 8 else
             let amount := reimbursement fee_paid pb pt in
             if amount <? 0 then Panic 9 else       (* NewCoin: negative coin amount *)
-            let fee := if total_fee <=? amount then total_fee else amount in
+            let fee := reimb_fee amount total_fee in
             if fee <=? 0 then Ok s
             else
               let temp := p_temp (st_params s) in
